@@ -378,7 +378,7 @@ Route(S, n, i, f) ==
                    probs == [a \in 1..(N+1) |-> IF a <= N THEN row[a] ELSE DEN - SumSeq(row)]
                IN pick(S, ProbChoice(S, dests, probs))
        ELSE IF r.kind = "nr" THEN
-          IF f = 2 THEN pick(S, {EXIT})
+          IF f = 2 THEN pick(S, {IF r.routers[n].jock # 0 THEN r.routers[n].jock ELSE EXIT})   \* jockeying destination
           ELSE LET nr == r.routers[n]
                IN IF nr.t = "prob" THEN
                      LET m == Len(nr.dests)
